@@ -12,7 +12,7 @@ import traceback
 
 from ..models import hostile
 from ..monitors import budget
-from ..monitors.reach import Reach
+from ..monitors.reach import Reach, opt
 
 ID = "C07"
 RULE = (
@@ -331,12 +331,12 @@ def run(shard, rec, rng):
     from werkzeug.sansio import utils as SU
 
     reach = Reach(rec, {
-        "parse_options_header": W.http.parse_options_header, "parse_dict_header": W.http.parse_dict_header,
-        "parse_range_header": W.http.parse_range_header, "parse_etags": W.http.parse_etags, "parse_cookie": W.shttp.parse_cookie,
-        "parse_date": W.http.parse_date, "parse_accept_header": W.http.parse_accept_header,
-        "Authorization.from_header": W.DS.Authorization.from_header, "WWWAuthenticate.from_header": W.DS.WWWAuthenticate.from_header,
-        "_plain_int": IN._plain_int, "_wsgi_decoding_dance": IN._wsgi_decoding_dance, "_DictAccessorProperty.__get__": IN._DictAccessorProperty.__get__,
-        "get_current_url": SU.get_current_url, "get_host": SU.get_host, "Request.args": SRQ.Request.args,
+        "parse_options_header": opt(lambda: W.http.parse_options_header), "parse_dict_header": opt(lambda: W.http.parse_dict_header),
+        "parse_range_header": opt(lambda: W.http.parse_range_header), "parse_etags": opt(lambda: W.http.parse_etags), "parse_cookie": opt(lambda: W.shttp.parse_cookie),
+        "parse_date": opt(lambda: W.http.parse_date), "parse_accept_header": opt(lambda: W.http.parse_accept_header),
+        "Authorization.from_header": opt(lambda: W.DS.Authorization.from_header), "WWWAuthenticate.from_header": opt(lambda: W.DS.WWWAuthenticate.from_header),
+        "_plain_int": opt(lambda: IN._plain_int), "_wsgi_decoding_dance": opt(lambda: IN._wsgi_decoding_dance), "_DictAccessorProperty.__get__": opt(lambda: IN._DictAccessorProperty.__get__),
+        "get_current_url": opt(lambda: SU.get_current_url), "get_host": opt(lambda: SU.get_host), "Request.args": opt(lambda: SRQ.Request.args),
     })
     cfg = TIERS[shard["_tier"]]
     targets = direct_targets(W)
